@@ -64,25 +64,25 @@ var mnValidGlobals = []struct {
 	K string
 	V []string
 }{
-	{"server_chain.block.min_block_size", []string{"1", "2"}},
-	{"server_chain.block.max_block_size", []string{"100", "250"}},
+	{"server_chain.block.min_block_size", []string{"1", "2", "0", "+3"}},
+	{"server_chain.block.max_block_size", []string{"100", "250", "2147483647", "0100"}}, // int32: the largest value that fits
 	{"server_chain.block.max_block_cost", []string{"10000", "20000"}},
-	{"server_chain.block.max_byte_size", []string{"1638400", "3276800"}},
+	{"server_chain.block.max_byte_size", []string{"1638400", "3276800", "9223372036854775807", "4294967296"}}, // int64
 	{"server_chain.block.replicators", []string{"0", "1"}},
 	{"server_chain.block.generation.timeout", []string{"15", "30"}},
 	{"server_chain.block.generation.retry_wait_time", []string{"5", "7"}},
-	{"server_chain.block.proposal.max_wait_time", []string{"180ms", "1s"}},
+	{"server_chain.block.proposal.max_wait_time", []string{"180ms", "1s", "1.5s", "0", "1h30m", "250000us"}},
 	{"server_chain.block.proposal.wait_mode", []string{"static", "dynamic"}},
 	{"server_chain.block.consensus.threshold_by_count", []string{"66", "60"}},
 	{"server_chain.block.consensus.threshold_by_stake", []string{"0", "10"}},
 	{"server_chain.block.sharding.min_active_sharders", []string{"25", "50"}},
 	{"server_chain.block.sharding.min_active_replicators", []string{"25"}},
 	{"server_chain.block.validation.batch_size", []string{"1000", "500"}},
-	{"server_chain.block.reuse_txns", []string{"false", "true"}},
-	{"server_chain.block.finalization.timeout", []string{"30s"}},
+	{"server_chain.block.reuse_txns", []string{"false", "true", "1", "0", "T", "False"}},
+	{"server_chain.block.finalization.timeout", []string{"30s", "0.5m", "30000ms"}},
 	{"server_chain.block.min_generators", []string{"2", "1"}},
-	{"server_chain.block.generators_percent", []string{"0.2", "0.5"}},
-	{"server_chain.round_range", []string{"10000000", "500"}},
+	{"server_chain.block.generators_percent", []string{"0.2", "0.5", ".25", "5e-1", "1"}},
+	{"server_chain.round_range", []string{"10000000", "500", "9223372036854775807", "2147483648"}}, // int64
 	{"server_chain.round_timeouts.softto_min", []string{"1500", "3000"}},
 	{"server_chain.round_timeouts.softto_mult", []string{"1"}},
 	{"server_chain.round_timeouts.round_restart_mult", []string{"10"}},
@@ -97,21 +97,21 @@ var mnValidGlobals = []struct {
 	{"server_chain.messages.verification_tickets_to", []string{"all_miners", "generator"}},
 	{"server_chain.state.prune_below_count", []string{"100"}},
 	{"server_chain.state.sync.timeout", []string{"10s"}},
-	{"server_chain.stuck.check_interval", []string{"10s"}},
+	{"server_chain.stuck.check_interval", []string{"10s", "1m30s", "90s"}},
 	{"server_chain.stuck.time_threshold", []string{"60s"}},
 	{"server_chain.smart_contract.timeout", []string{"8000ms", "60s"}},
 	{"server_chain.smart_contract.setting_update_period", []string{"200", "1"}},
-	{"server_chain.lfb_ticket.rebroadcast_timeout", []string{"15s"}},
-	{"server_chain.lfb_ticket.ahead", []string{"5"}},
-	{"server_chain.async_blocks_fetching.max_simultaneous_from_miners", []string{"100"}},
+	{"server_chain.lfb_ticket.rebroadcast_timeout", []string{"15s", "0.25m", "15000000000ns"}},
+	{"server_chain.lfb_ticket.ahead", []string{"5", "2147483648", "-1"}}, // int: 64 bit
+	{"server_chain.async_blocks_fetching.max_simultaneous_from_miners", []string{"100", "4294967306", "9223372036854775807"}},
 	{"server_chain.async_blocks_fetching.max_simultaneous_from_sharders", []string{"30"}},
 	{"server_chain.block_rewards", []string{"true", "false"}},
 	{"server_chain.dbs.settings.debug", []string{"true", "false"}},
 	{"server_chain.dbs.settings.aggregate_period", []string{"10", "100"}},
-	{"server_chain.dbs.settings.page_limit", []string{"50"}},
+	{"server_chain.dbs.settings.page_limit", []string{"50", "9223372036854775807", "-9223372036854775808"}},
 }
 
-var mnBadGlobals = []struct {
+var mnBadGlobals = append([]struct {
 	K, V, Class string
 }{
 	{"server_chain.owner", "00", "immutable"}, {"server_chain.state.enabled", "false", "immutable"}, {"server_chain.dkg", "false", "immutable"},
@@ -122,7 +122,13 @@ var mnBadGlobals = []struct {
 	{"server_chain.block.max_block_size", "abc", "unparsable"}, {"server_chain.block.max_block_size", "99999999999", "unparsable"}, {"server_chain.block.proposal.max_wait_time", "5 parsecs", "unparsable"},
 	{"server_chain.block.reuse_txns", "maybe", "unparsable"}, {"server_chain.block.generators_percent", "1,5", "unparsable"}, {"server_chain.round_range", "9223372036854775808", "unparsable"},
 	{"server_chain.transaction.min_fee", "free", "unparsable"}, {"server_chain.block.max_block_cost", "", "unparsable"},
-}
+	// boundary spellings written out (the generated list below has them for every numeric / duration / boolean mutable global)
+	{"server_chain.block.max_block_size", "2147483648", "unparsable"}, {"server_chain.block.max_block_size", "4294967306", "unparsable"}, {"server_chain.block.min_block_size", "-2147483649", "unparsable"},
+	{"server_chain.block.min_block_size", "9223372036854775807", "unparsable"}, {"server_chain.block.max_block_cost", "9223372036854775808", "unparsable"}, {"server_chain.block.max_byte_size", "-9223372036854775809", "unparsable"},
+	{"server_chain.block.replicators", "1.0", "unparsable"}, {"server_chain.block.min_generators", "1e3", "unparsable"}, {"server_chain.transaction.future_nonce", "99999999999999999999999999", "unparsable"},
+	{"server_chain.block.generation.timeout", "15s", "unparsable"}, {"server_chain.smart_contract.timeout", "8000", "unparsable"}, {"server_chain.block.finalization.timeout", "1d", "unparsable"}, {"server_chain.state.sync.timeout", "10 s", "unparsable"},
+	{"server_chain.transaction.max_fee", "1e400", "unparsable"}, {"server_chain.block_rewards", "yes", "unparsable"},
+}, gfBadBoundaryGlobals()...)
 
 func minerGovOps() []OpDef {
 	kill := func(typ string) func(h *Hist, r *mon.Rand) *Call {
@@ -380,6 +386,17 @@ func minerGovOps() []OpDef {
 				raw = [][]byte{[]byte(`null`), []byte(`{"fields":[]}`), []byte(`{"fields":{"server_chain.round_range":5}}`), []byte(`[]`), []byte(`{}`), []byte(`7`)}[r.Intn(6)]
 				mut = "garbage-input"
 			}
+		}
+		// boundary values of the setting's kind (just inside / outside int32 and int64, float spellings, durations without unit, ...)
+		// mixed into an ordinary update or sent alone; accept / reject is not predicted here, the monitors judge what gets stored.
+		// Only when C48 itself is checked: engines that finalize blocks apply the stored globals to the harness' own chain.
+		if h.Focus == "C48" && mut == "" && raw == nil && r.Chance(0.3) {
+			k, v := gfEdgeEntry(r)
+			if r.Chance(0.5) {
+				fields = map[string]string{}
+			}
+			fields[k] = v
+			mut = "edge-value"
 		}
 		if mut == "bad-entries" || mut == "bad-entry" {
 			var cs []string
